@@ -112,6 +112,18 @@ static lp_polynomial_t* hp_random_poly(int ri, int nvars, unsigned maxdeg, int m
 }
 
 /* a destination object in one of the prior states: 0 fresh (zero), 1 constant, 2 polynomial in other variables / shape */
+/* ---- stale external operands: an operand marked external, built under one variable order and first seen by the operation
+   under another one (the library must re-order it by itself).  Tokens are taken before the change (printing re-orders). ---- */
+static int hp_stale_on = 0;
+static char* hp_tok(const lp_polynomial_t* p) { sb_reset(); sb_poly(p); return strdup(sb_buf); }
+static void hp_stale_begin(void) { lp_variable_order_reverse(hp_order); hp_stale_on = 1; }
+static void hp_stale_end(void) { if (hp_stale_on) { lp_variable_order_reverse(hp_order); hp_stale_on = 0; } }
+/* main variable under the order now in force, asked of a private non-external copy made before the change */
+static long hp_topvar_twin(lp_polynomial_t* twin) {
+  lp_polynomial_ensure_order(twin);
+  return lp_polynomial_is_constant(twin) ? -1 : (long)lp_polynomial_top_variable(twin);
+}
+
 static lp_polynomial_t* hp_dest(int ri, int kind) {
   if (kind == 0) return lp_polynomial_new(hp_ctx[ri]);
   if (kind == 1) { lp_polynomial_t* p = lp_polynomial_alloc(); lp_integer_t c; lp_integer_construct_from_int(lp_Z, &c, 1 + rnd(7));
